@@ -165,6 +165,7 @@ func corrC01(r *Run) {
 			}
 			orig := clonePDU(p)
 			term := coqValue(orig)
+			r.SetReplay(replayValue(orig))
 			_, err, w, panicked, pmsg := marshalRec(p)
 			in := fmt.Sprintf("roundtrip %s %s", t.Name, term)
 			if len(in) > 4000 {
